@@ -927,7 +927,7 @@ class FlagEngine:
     (`let mut ok = true; ... ok = false; ... if !ok {..}`): their value is carried in the abstract
     state and switches on them (directly, through a copy or a `Not`) are pruned accordingly."""
 
-    def __init__(self, body, prov):
+    def __init__(self, body, prov, include_temps=False):
         self.body = body
         self.prov = prov
         self.flags = []
@@ -936,7 +936,7 @@ class FlagEngine:
                 continue
             defs = prov.defs.get(l, ())
             if defs and all(k == "rv" and p.k == "use" and p.ops[0].const_int() in (0, 1) and lhs.is_local()
-                            for lhs, k, p, b, _ in defs) and decl.get("name"):
+                            for lhs, k, p, b, _ in defs) and (decl.get("name") or include_temps):
                 self.flags.append(l)
         self.index = {l: i for i, l in enumerate(self.flags)}
 
@@ -1153,3 +1153,49 @@ def named_switches(body):
         if neg:
             op = {"<": ">=", "<=": ">", ">": "<=", ">=": "<", "==": "!=", "!=": "=="}[op]
         yield b.idx, op, operand_name(body, blk, a), operand_name(body, blk, c), f, tr
+
+
+def constant_discriminant_edges(body, guards):
+    """edges that are infeasible because the inspected value is, on every definition, an aggregate of one known variant
+    (e.g. `matches!(insert_result, Inserted)` when every reaching definition of insert_result is `Inserted`)"""
+    out = []
+    for bi, t, e in guards.switches():
+        if e[0] != "discr":
+            continue
+        rs = roots(e[1])
+        if not rs or not all(x[0] == "agg" and "::" in x[1] for x in rs):
+            continue
+        variants = set(x[1].split("::")[-1] for x in rs)
+        if len(variants) != 1:
+            continue
+        names, _ = guards.variant_names(bi)
+        v = list(variants)[0]
+        idx = [i for i, n in names.items() if n == v]
+        if len(idx) != 1:
+            continue
+        feasible = [tb for val, tb in t.vals if val == idx[0]]
+        if not feasible:
+            feasible = [t.otherwise]
+        for s_ in t.succs():
+            if s_ not in feasible:
+                out.append((bi, s_))
+    return out
+
+
+def reachable_flags(body, prov, start, removed_edges=(), removed_blocks=()):
+    """blocks reachable from `start` when constant bool flags (named or compiler temporaries such as the result of
+    `matches!`) are tracked path-sensitively and the given edges / blocks are removed"""
+    fe = FlagEngine(body, prov, include_temps=True)
+    removed_edges = set(removed_edges)
+    removed_blocks = set(removed_blocks)
+
+    def transfer(bidx, vals):
+        vals = fe.apply_stmts(bidx, vals)
+        for s_ in fe.successors(bidx, vals):
+            if (bidx, s_) in removed_edges or s_ in removed_blocks:
+                continue
+            yield s_, vals
+    if start in removed_blocks:
+        return set()
+    states, exits, parent = propagate(body, fe.initial(), transfer, start=start)
+    return set(states)
